@@ -44,18 +44,18 @@ PROPS = {
                  lts=[None, 0, 1, 1, 2, 2, 3, 5], sizes=[None, None, 1, 1, 2],
                  advs=[0, 1, 999999999, 1000000000, 1000000001, 1999999999, 2000000000, 2000000001, 3000000000, 5000000000],
                  probe_every=2, bad_key_pct=10),
-            "C04", ["C04", "HOLDS"], (300, 6000)),
+            "C04", ["C04", "HOLDS", "FRESH"], (300, 6000)),
     "C07": (prof(weights={"try": 20, "lock": 8, "unl": 24, "ren": 16, "adv": 8, "probe": 0, "restart": 1, "ipcu": 3},
                  names=[H("a"), H("ab"), H("b"), H("abc"), H("a:"), H("1:a"), H("a "), H(" a")],
                  sizes=[None, None, 1, 2, 0, -1, 3], lts=[None, 0, 1, 5, -1], wts=[None, 0, 1, -1],
                  probe_every=0, probe_around=True, bad_key_pct=45, no_sess_pct=4),
-            "C07", ["C07", "HOLDS"], (300, 6000)),
+            "C07", ["C07", "HOLDS", "FRESH"], (300, 6000)),
     "C08": (prof(weights={"disc": 8, "unl": 22, "restart": 4, "ipcu": 3, "adv": 14}, probe_every=1,
                  noclear=[False, True], file=[True, True, True, False], bad_key_pct=10),
-            "C08", ["C08", "HOLDS"], (300, 6000)),
+            "C08", ["C08", "HOLDS", "FRESH"], (300, 6000)),
     "C10": (prof(weights={"restart": 10, "adv": 14, "ren": 10, "unl": 14, "disc": 5}, probe_every=2, file=[True, True, True, False],
                  dlt=[3000000000, 1000000000, 2000000000, 600000000000, 0, 500000000, 1500000000, 999999999], min_len=10, max_len=36),
-            "C10", ["C10", "HOLDS", "C04", "C08", "C01"], (300, 6000)),
+            "C10", ["C10", "HOLDS", "C04", "C08", "C01", "FRESH"], (300, 6000)),
     "C12": (prof(weights={"try": 30, "lock": 14, "ren": 12, "unl": 8, "adv": 6, "restart": 1},
                  names=[H("a"), H("ab"), H("b"), "", H("a"), H("x" * 300), "c3a9e4b8ad", H(" a"), H("a "), H(" "), H("a\t")],
                  sizes=[None, None, 1, 2, 3, 0, -1, -2147483648, 2147483647, 2],
@@ -70,7 +70,7 @@ PROPS = {
     "C01": (prof(weights={"try": 30, "lock": 14, "unl": 16, "disc": 6, "adv": 14, "restart": 3}, probe_every=1,
                  names=[H("a"), H("ab"), H("b"), H(" a"), H("a "), H("a\n"), H("A")],
                  gc=[[2000000000, 1000000000], [1000000000, 0], [200000000, 0]]),
-            "C01", ["C01", "HOLDS"], (250, 5000)),
+            "C01", ["C01", "HOLDS", "FRESH"], (250, 5000)),
     "C02": (prof(weights={"try": 30, "lock": 12, "unl": 26, "adv": 6, "cancel": 6}, lts=[None], probe_every=2, bad_key_pct=25),
             "C01", ["C02", "C01", "HOLDS"], (250, 5000)),
     "C03": (prof(weights={"lock": 30, "try": 10, "unl": 18, "cancel": 8, "adv": 22, "disc": 6}, sizes=[None, 1, 1, 2],
@@ -81,7 +81,7 @@ PROPS = {
                  advs=[0, 1, 999999999, 1000000000, 1000000001, 2000000000]),
             "C04", ["C04", "HOLDS"], (200, 4000)),
     "C06": (prof(weights={"conn": 10, "disc": 14, "lock": 14, "try": 24, "adv": 10}, probe_every=1, noclear=[False, False, True, True]),
-            "C06", ["HOLDS", "C08", "C03"], (250, 5000)),
+            "C06", ["HOLDS", "C08", "C03", "FRESH"], (250, 5000)),
     "C09": (prof(weights={"restart": 8, "unl": 18, "disc": 8, "adv": 12}, probe_every=1, file=[True]),
             "C10", ["HOLDS", "C08", "C01"], (200, 4000)),
     "C11": (prof(weights={"shutdown": 3, "restart": 3, "lock": 16, "try": 24, "adv": 10}, probe_every=1, file=[True, True, False], min_len=6),
